@@ -44,11 +44,24 @@ def main(argv: list[str]) -> int:
     if argv[1] == "--replay":
         data = json.loads(open(argv[2]).read())
         case = data["case"] if "case" in data else data
+        from .explore import CRASH_CLAUSE, crash_detail, replay_crash, sdk_origin
+
         try:
-            viols = mod.replay(case)
+            if "crash_in_run" in case:
+                mod.run(case["crash_in_run"], 0, default_workers(case["crash_in_run"]))
+                viols = []
+            else:
+                viols = replay_crash(case) if "crash_in_shard" in case else mod.replay(case)
         except Nondeterminism as e:
             print(f"INFRA-ERROR: replay diverged: {e}", file=sys.stderr)
             return 3
+        except Exception as e:  # noqa: BLE001
+            where = sdk_origin(e)
+            if where is None:
+                traceback.print_exc()
+                print(f"INFRA-ERROR: replay of {argv[2]} crashed", file=sys.stderr)
+                return 3
+            viols = [(CRASH_CLAUSE, crash_detail(e, where))]
         if viols:
             for clause, detail in viols:
                 print(f"VIOLATION property={pid} replay={argv[2]}")
@@ -68,10 +81,19 @@ def main(argv: list[str]) -> int:
         traceback.print_exc()
         print(f"INFRA-ERROR: nondeterministic execution: {e}", file=sys.stderr)
         return 3
-    except Exception:  # noqa: BLE001
+    except Exception as e:  # noqa: BLE001
+        from .explore import CRASH_CLAUSE, crash_detail, sdk_origin
+
+        where = sdk_origin(e)
         traceback.print_exc()
-        print(f"INFRA-ERROR: check {pid} crashed", file=sys.stderr)
-        return 3
+        if where is None:
+            print(f"INFRA-ERROR: check {pid} crashed", file=sys.stderr)
+            return 3
+        # last resort (the per-case guards did not see it): the SDK raised into a harness call
+        path = core.write_replay(pid, core.Violation(CRASH_CLAUSE, {"crash_in_run": tier}, crash_detail(e, where)))
+        print(f"VIOLATION property={pid} replay={path}")
+        print(f"    clause={CRASH_CLAUSE} detail={json.dumps(crash_detail(e, where))}")
+        return 1
     return core.finish(
         pid,
         tier,
